@@ -16,13 +16,17 @@ import tempfile
 from harness import core, histcheck, isoapi
 from harness.props import c01, c04
 
-LEAN_MODULES = ['Pycdlib.Props.C03', 'Pycdlib.Props.TiePack']
+LEAN_MODULES = ['Pycdlib.Props.C03', 'Pycdlib.Props.TiePack', 'Pycdlib.Props.C03Dir', 'Pycdlib.Props.C03Pt']
 THEOREMS = ['Pycdlib.decDR_encDR', 'Pycdlib.decPTR_encPTR', 'Pycdlib.decBoth16_both16', 'Pycdlib.decBoth32_both32',
             'Pycdlib.decBoth32_rejects', 'Pycdlib.dr_len_even', 'Pycdlib.writer_no_straddle', 'Pycdlib.writer_matches_cache',
-            'Pycdlib.dr_recalc_tie', 'Pycdlib.dr_recalc_init_tie']
+            'Pycdlib.dr_recalc_tie', 'Pycdlib.dr_recalc_init_tie',
+            'Pycdlib.DirBytes.parse_renderDir', 'Pycdlib.DirBytes.dir_roundtrip', 'Pycdlib.DirBytes.encDR_recOk', 'Pycdlib.DirBytes.parse_zeros',
+            'Pycdlib.PtBytes.parse_render', 'Pycdlib.PtBytes.le_be_agree', 'Pycdlib.PtBytes.render_length']
 PARTIAL = {
-    'master_wellformed_partial': 'record-level codecs and packing are proved; the image-level predicate (descriptor set, dot/dotdot, '
-    'sortedness, path tables as level-order listing) is the reader\'s error list evaluated on pycdlib\'s bytes per history',
+    'master_wellformed_partial': 'proved: record codecs, packing, a whole directory extent reads back as the records written '
+    '(DirBytes.dir_roundtrip), a whole path table reads back as its records in both byte orders (PtBytes.parse_render, le_be_agree). '
+    'Not one theorem: the image-level predicate (descriptor set, dot/dotdot targets, sortedness, path table = level-order listing with '
+    'parent numbers) — the reader\'s error list evaluated on pycdlib\'s bytes per history',
     'sortedness': 'pycdlib orders records by raw identifier bytes (dr.py __lt__); ECMA-119 9.3 order differs when versions differ or '
     'an extension is a proper prefix of another followed by a character below 0x20-padded comparison — known finding C03.wf/unsorted-ecma',
 }
@@ -30,7 +34,8 @@ TRUSTED = ['Model/Reader.lean as the statement of ECMA-119 well-formedness']
 ASSUMPTIONS = []
 RULE = c01.RULE + '; plus duplicate PVDs'
 LEVEL_TEXT = ('Lean 4 theorems: decode∘encode = id for directory and path table records in both byte orders, both-endian fields '
-              'agree and disagreeing fields are rejected, records never straddle a sector. Image-level well-formedness is decided by '
+              'agree and disagreeing fields are rejected, records never straddle a sector; a directory extent and a path table read back as exactly the '
+              'records written, for every record list (dir_roundtrip, PtBytes.parse_render), tied byte for byte to every directory extent and path table of every generated image. Image-level well-formedness is decided by '
               'the independent Lean reader on every generated image; record codecs are tied to dr.py/path_table_record.py by '
               'differential execution on every record of every generated image.')
 LEVEL_NOTE = 'Trusted: Lean kernel; the reader as specification of ECMA-119; harness generators.'
@@ -110,6 +115,39 @@ def post(ctx, c, rep):
             for be in (0, 1):
                 reqs.append('encptr %d %d %d %s' % (be, d.ptr.extent_location, d.ptr.parent_directory_num, core.hexs(d.ptr.directory_identifier)))
                 impl.append((d.ptr.record_big_endian() if be else d.ptr.record_little_endian()).hex())
+    # directory extents: the bytes on the image vs the model writer (DirBytes.renderDir), and the model reader
+    # (DirBytes.parse) on the bytes — the two functions `dir_roundtrip` is about
+    try:
+        with open(c.path, 'rb') as f:
+            for tag, path, d in c04.dir_records(c.iso):
+                f.seek(d.extent_location() * 2048)
+                ext = f.read(d.data_length)
+                if len(ext) != d.data_length or len(ext) > 64 * 2048:
+                    continue
+                reqs.append('dirext %s %s' % (core.hexs(ext), ','.join(ch.record().hex() for ch in d.children) or '-'))
+                impl.append('render-ok parse-ok')
+            # path tables: bytes on the image vs PtBytes.render, PtBytes.parse on the bytes (`parse_render`, `le_be_agree`)
+            import collections
+            for vd in [c.iso.pvd] + ([c.iso.joliet_vd] if c.iso.joliet_vd is not None else []):
+                order, dq = [], collections.deque([vd.root_directory_record()])
+                while dq:
+                    d = dq.popleft()
+                    if d.ptr is not None:
+                        order.append(d.ptr)
+                    for ch in d.children:
+                        if ch.is_dir() and not ch.is_dot() and not ch.is_dotdot():
+                            if ch.rock_ridge is not None and ch.rock_ridge.child_link_record_exists():
+                                continue
+                            dq.append(ch)
+                if not order or len(order) > 400:
+                    continue
+                toks = ','.join('%d:%d:%s' % (p.extent_location, p.parent_directory_num, p.directory_identifier.hex()) for p in order)
+                for be, loc in ((0, vd.path_table_location_le), (1, vd.path_table_location_be)):
+                    f.seek(loc * 2048)
+                    reqs.append('ptext %d %s %s' % (be, core.hexs(f.read(vd.path_tbl_size)), toks))
+                    impl.append('render-ok parse-ok')
+    except OSError:
+        pass
     if reqs:
         model = ctx.driver.ask(reqs)
         for rq, a, b in zip(reqs, impl, model):
